@@ -872,7 +872,9 @@ func HashMapOfValueIndex(vm *Thread, hashMap *HashMapOfValue, key value.Value) (
 		// when we reach the start index
 		// all slots are checked
 		if index == startIndex {
-			return -1, value.Undefined
+			// there are no empty slots left, reuse a deleted slot if one
+			// has been seen, otherwise `deletedIndex` is -1
+			return deletedIndex, value.Undefined
 		}
 	}
 }
